@@ -205,13 +205,13 @@ def _overlay(db, chk, cp):
         ev = H.name_id(lp[0].target)
         r = H.match_seq([f"$u, $v = ({ev}.begin, {ev}.end)", f"$s, $t = critical_path_graph.get_events_for_edge({ev})", "$se, $te = (raw_events[$s], raw_events[$t])".replace("raw_events", "$raw"),
                          f"$fl.append(get_flow_event($u, $se, {ev}, $fid, is_start=True))", f"$fl.append(get_flow_event($v, $te, {ev}, $fid, is_start=False))", "$fid += 1"], body)
-        n_inc = [s_ for s_ in ast.walk(lp[0]) if isinstance(s_, ast.AugAssign)]
+        n_inc = H.self_updates(lp[0])
         okp = r is not None and len(n_inc) == 1 and r["__mv_raw"] in al and al[r["__mv_raw"]][1] == ["traceEvents"]
     chk.ob(rule, "per drawn edge: one start and one end flow event with the same id, built from (begin node, event of begin node) and (end node, event of end node); id advanced once per edge", okp if len(lp) == 1 else None, where,
            found=det3, accepted="u, v = e.begin, e.end; ids = get_events_for_edge(e); append(get_flow_event(u, start_ev, ..., True)); append(get_flow_event(v, end_ev, ..., False)); flow_id += 1")
     gf = cp.func("CriticalPathAnalysis.overlay_critical_path_analysis.get_flow_event")
     call = [c for c in ast.walk(gf) if isinstance(c, ast.Call) and call_name(c).endswith("flow_event")]
-    kws = {k.arg: ast.unparse(k.value).replace(" ", "") for c in call for k in c.keywords}
+    kws = {k_: ast.unparse(v_).replace(" ", "") for c in call for k_, v_ in H.bound_args(c).items()}
     chk.ob(rule, "a flow event sits on the process and thread of the event it is attached to", kws.get("pid") == "event['pid']" and kws.get("tid") == "event['tid']" and kws.get("id") == "flow_id" and kws.get("is_start") == "is_start",
            cp.loc(gf), found={k: kws.get(k) for k in ("id", "pid", "tid", "is_start")}, accepted={"id": "flow_id", "pid": "event['pid']", "tid": "event['tid']", "is_start": "is_start"})
     gev = cp.func("CPGraph.get_events_for_edge")
